@@ -3,6 +3,7 @@
   assertions handed to z3, in order, each tagged with its owner.
 -/
 import PS.Model.Step
+import PS.Model.Indicator
 namespace PS
 
 /-- who contributed a formula (used for C19's tracking map and to localise mismatches) -/
@@ -41,59 +42,76 @@ structure Config where
 /-- work amount of one task (solver.py:246-261) -/
 def workAmount (st : State) (t : Task) : List Fml :=
   if t.work > 0 then
-    let contribs := t.reqs.filterMap (fun r =>
+    let contribs := (st.reqsOf t.name).filterMap (fun r =>
       match st.findWorker r.worker with
       | none => none
       | some w =>
-        let m := match w.busy.find? (·.1 == t.name) with | some e => e.2 | none => r.maybe
+        let m := match (st.busyOf w.name).find? (·.1 == t.name) with | some e => e.2 | none => r.maybe
         some (Term.mul (numT w.prod) (.sub (bE w.name t.name m) (bS w.name t.name m))))
     if contribs.isEmpty then [] else [.ge (.sum contribs) (numT t.work)]
   else []
 
 /-! ### buffers (solver.py:263-385) -/
 
-/-- `sort_no_duplicates`: fresh `a_i`, each equal to one of the inputs, strictly increasing -/
-def sortNoDup (base : Nat) (xs : List Term) : List Term × List Fml :=
-  let n := xs.length
-  let a := (List.range n).map (fun i => Term.var (.fresh (base + i)))
-  let cs := a.map (fun ai => Fml.or (xs.map (fun x => Fml.eq ai x)))
-  let inc := Fml.and ((List.range (n - 1)).map (fun i => Fml.lt (a.getD i default) (a.getD (i + 1) default)))
-  (a, cs ++ [inc])
-
 /-- one `bubble_up` pass of `sort_duplicates`; `x` is the element currently carried -/
-def bubbleUpAux (base : Nat) (x : Term) : List Term → List Term × List Fml × Nat
+def bubbleUpAux (b : String) (base : Nat) (x : Term) : List Term → List Term × List Fml × Nat
   | [] => ([x], [], base)
   | y :: rest =>
-      let x1 := Term.var (.fresh base)
-      let y1 := Term.var (.fresh (base + 1))
+      let x1 := Term.var (.bfresh b base)
+      let y1 := Term.var (.bfresh b (base + 1))
       let c := Fml.ite (.le x y) (.and [.eq x1 x, .eq y1 y]) (.and [.eq x1 y, .eq y1 x])
-      let (arr, cs, b) := bubbleUpAux (base + 2) y1 rest
-      (x1 :: arr, c :: cs, b)
+      let (arr, cs, k) := bubbleUpAux b (base + 2) y1 rest
+      (x1 :: arr, c :: cs, k)
 
-def bubbleUp (base : Nat) : List Term → List Term × List Fml × Nat
+def bubbleUp (b : String) (base : Nat) : List Term → List Term × List Fml × Nat
   | [] => ([], [], base)
-  | x :: rest => bubbleUpAux base x rest
+  | x :: rest => bubbleUpAux b base x rest
 
 /-- `sort_duplicates`: `n` passes -/
-def sortDup (base : Nat) (xs : List Term) : List Term × List Fml × Nat :=
-  (List.range xs.length).foldl (fun (acc : List Term × List Fml × Nat) _ =>
-      let (arr, cs, b) := bubbleUp acc.2.2 acc.1
-      (arr, acc.2.1 ++ cs, b)) (xs, [], base)
+def sortDup (b : String) (xs : List Term) : List Term × List Fml :=
+  let r := (List.range xs.length).foldl (fun (acc : List Term × List Fml × Nat) _ =>
+      let (arr, cs, k) := bubbleUp b acc.2.2 acc.1
+      (arr, acc.2.1 ++ cs, k)) (xs, [], 0)
+  (r.1, r.2.1)
 
-def Buffer.levelVars (b : Buffer) : List Term :=
-  Term.var (.bufInit b.name) :: b.accesses.map (fun t => Term.var (.bufLevel b.name t))
+/-- `buffer._unloading_tasks` / `_loading_tasks` and the access order, from the constraint list -/
+def State.bufUnloading (st : State) (b : String) : List (String × Int) :=
+  st.constrs.foldl (fun acc c => match c.body with
+    | .unloadBuffer t b' q => if b' == b then dictSet acc t.name q else acc
+    | _ => acc) []
 
-def Buffer.timeVars (b : Buffer) : List Term := b.accesses.map (fun t => Term.var (.bufTime b.name t))
+def State.bufLoading (st : State) (b : String) : List (String × Int) :=
+  st.constrs.foldl (fun acc c => match c.body with
+    | .loadBuffer t b' q => if b' == b then dictSet acc t.name q else acc
+    | _ => acc) []
 
-def bufferFmls (base : Nat) (b : Buffer) : List Fml × Nat :=
-  let unloadStarts := b.unloading.map (fun e => Term.var (.tStart e.1))
-  let loadEnds := b.loading.map (fun e => Term.var (.tEnd e.1))
-  let inputs := unloadStarts ++ loadEnds
-  let (sorted, sortAs, base') :=
-    if b.concurrent then sortDup base inputs
-    else let (a, cs) := sortNoDup base inputs; (a, cs, base + inputs.length)
-  let times := b.timeVars
-  let levels := b.levelVars
+/-- tasks in the order of `_level_changes_time` / `_buffer_levels[1:]` -/
+def State.bufAccesses (st : State) (b : String) : List String :=
+  st.constrs.filterMap (fun c => match c.body with
+    | .unloadBuffer t b' _ => if b' == b then some t.name else none
+    | .loadBuffer t b' _ => if b' == b then some t.name else none
+    | _ => none)
+
+def Buffer.levelVars (b : Buffer) (accesses : List String) : List Term :=
+  Term.var (.bufInit b.name) :: accesses.map (fun t => Term.var (.bufLevel b.name t))
+
+def Buffer.timeVars (b : Buffer) (accesses : List String) : List Term :=
+  accesses.map (fun t => Term.var (.bufTime b.name t))
+
+def Buffer.ownAsserts (b : Buffer) : List Fml :=
+  match b.initial with
+  | some i => [.eq (.var (.bufInit b.name)) (numT i)]
+  | none => []
+
+def bufferFmls (st : State) (b : Buffer) : List Fml :=
+  let unl := st.bufUnloading b.name
+  let ld := st.bufLoading b.name
+  let acc := st.bufAccesses b.name
+  let inputs := unl.map (fun e => Term.var (.tStart e.1)) ++ ld.map (fun e => Term.var (.tEnd e.1))
+  let (sorted, sortAs) :=
+    if b.concurrent then sortDup b.name inputs else sortNoDup (fun i => .bfresh b.name i) inputs
+  let times := b.timeVars acc
+  let levels := b.levelVars acc
   let eqs := (sorted.zip times).map (fun (s, t) => Fml.eq s t)
   let fin := match b.final with
     | some f => [Fml.eq (levels.getLastD default) (numT f)]
@@ -102,10 +120,10 @@ def bufferFmls (base : Nat) (b : Buffer) : List Fml × Nat :=
   let ubs := match b.ub with | some u => levels.map (fun v => Fml.le v (numT u)) | none => []
   let rec_ :=
     if b.concurrent then
-      let fU := b.unloading.map (fun e => (b.name ++ "_" ++ e.1 ++ "_quantity_unloading", Term.var (.tStart e.1), - e.2))
-      let fL := b.loading.map (fun e => (b.name ++ "_" ++ e.1 ++ "_quantity_loading", Term.var (.tEnd e.1), e.2))
+      let fU := unl.map (fun e => (b.name ++ "_" ++ e.1 ++ "_quantity_unloading", Term.var (.tStart e.1), - e.2))
+      let fL := ld.map (fun e => (b.name ++ "_" ++ e.1 ++ "_quantity_loading", Term.var (.tEnd e.1), e.2))
       let fs := fU ++ fL
-      let pulses := fs.map (fun (f, p, q) => Fml.pulse f p q)
+      let pulses := fs.map (fun (f, p, q) => Fml.pulse ("t_" ++ b.name ++ "_variable") f p q)
       let steps := (List.range (levels.length - 1)).map (fun i =>
         let li := levels.getD i default
         let li1 := levels.getD (i + 1) default
@@ -116,40 +134,39 @@ def bufferFmls (base : Nat) (b : Buffer) : List Fml × Nat :=
       pulses ++ steps
     else
       let arr := "Buffer_" ++ b.name ++ "_mapping"
-      let stores := b.unloading.map (fun e => Fml.storeFix arr (.var (.tStart e.1)) (numT (- e.2))) ++
-                    b.loading.map (fun e => Fml.storeFix arr (.var (.tEnd e.1)) (numT e.2))
+      let stores := unl.map (fun e => Fml.storeFix arr (.var (.tStart e.1)) (numT (- e.2))) ++
+                    ld.map (fun e => Fml.storeFix arr (.var (.tEnd e.1)) (numT e.2))
       let steps := (List.range (levels.length - 1)).map (fun i =>
         Fml.eq (levels.getD (i + 1) default) (.add (levels.getD i default) (.select arr (times.getD i default))))
       stores ++ steps
-  (b.asserts ++ sortAs ++ eqs ++ fin ++ lbs ++ ubs ++ rec_, base')
+  b.ownAsserts ++ sortAs ++ eqs ++ fin ++ lbs ++ ubs ++ rec_
 
-def buffersFmls (base : Nat) : List Buffer → List (Owner × Fml)
-  | [] => []
-  | b :: bs =>
-      let (fs, base') := bufferFmls base b
-      fs.map (fun f => (Owner.buffer b.name, f)) ++ buffersFmls base' bs
+/-! ### the problem's own assertions and the objective plumbing (solver.py:387-460) -/
 
-/-! ### objective plumbing (solver.py:416-460) -/
+def State.problemAsserts (st : State) : List Fml :=
+  match st.horizon with
+  | some h => [.le (.var .horizon) (numT h)]
+  | none => []
 
-def objectiveFmls (cfg : Config) (st : State) : List (Owner × Fml) :=
+def objectiveFmls (cfg : Config) (st : State) : List Fml :=
   if st.objectives.length > 1 && (!cfg.optimize || cfg.priority == "weight") then
     let eqv := IVar.named "EquivalentSingleObjective"
-    let ws := st.objectives.map (fun o => Term.mul (numT o.weight) (.var o.target))
-    [(.objective, .eq (.var eqv) (.sum ws)),
-     (.objective, .eq (.var (.ind "EquivalentIndicator")) (.var eqv))]
+    let ws := st.objectives.map (fun o => Term.mul (numT o.weight) o.target)
+    [.eq (.var eqv) (.sum ws), .eq (.var (.ind "EquivalentIndicator")) (.var eqv)]
   else []
 
 /-- the assertion list of `initialize`, with owners -/
 def initializeO (cfg : Config) (st : State) : List (Owner × Fml) :=
-  (st.tasks.flatMap (fun t => (t.asserts ++ [t.horizonFml]).map (fun f => (Owner.task t.name, f)))) ++
-  (st.workers.flatMap (fun w => w.noOverlap.map (fun f => (Owner.worker w.name, f)))) ++
+  (st.tasks.flatMap (fun t => (st.taskAsserts t ++ [t.horizonFml]).map (fun f => (Owner.task t.name, f)))) ++
+  (st.workers.flatMap (fun w => (noOverlapPairs w.name (st.busyOf w.name)).map (fun f => (Owner.worker w.name, f)))) ++
   ((st.constrs.filter (fun c => !c.operand)).flatMap (fun c => c.asserts.map (fun f => (Owner.constr c.id, f)))) ++
   (st.indicators.flatMap (fun i => i.asserts.map (fun f => (Owner.indicator i.id, f)))) ++
   (st.tasks.flatMap (fun t => (workAmount st t).map (fun f => (Owner.work t.name, f)))) ++
-  buffersFmls st.nfresh st.buffers ++
-  (st.passerts.map (fun f => (Owner.problem, f))) ++
-  objectiveFmls cfg st
+  (st.buffers.flatMap (fun b => (bufferFmls st b).map (fun f => (Owner.buffer b.name, f)))) ++
+  (st.problemAsserts.map (fun f => (Owner.problem, f))) ++
+  ((objectiveFmls cfg st).map (fun f => (Owner.objective, f)))
 
+/-- `solver._solver.assertions()` after `initialize()` (non-debug) -/
 def initFmls (cfg : Config) (st : State) : List Fml := (initializeO cfg st).map (·.2)
 
 end PS
